@@ -17,6 +17,8 @@ from vxlib import rewrite as rw
 from vxlib.cbmc import Harness, STUBS
 
 HERE = os.path.dirname(os.path.abspath(__file__))
+TABLE_FNS = ['isEqConstraint', 'isStrictIneqConstraint', 'isWeakIneqConstraint', 'isSignedInequalityConstraint', 'convertStrictToWeakIneqConstraint',
+             'convertStrictToNotEqualConstraint', 'isLessThan', 'isGreaterThan', 'isLessEqual', 'isGreaterEqual', 'negatedConstraintOp']
 ENGINE = 'src/interpreter/Engine.cpp'
 SYNTH = 'src/synthesiser/Synthesiser.cpp'
 FOPS = 'src/FunctorOps.h'
@@ -353,15 +355,102 @@ def extract(ctx):
         else:
             syn_fns.append('RamDomain synthc_%s(const RamDomain* vx_a) { if (%s) return 1; return 0; }' % (op, e))
     ctx.emitted = emitted
+    gen_native_replay(ctx, emitted)
     ctx.write('synth.hpp', '#include <cstddef>\n#include <cstdint>\n#include <cmath>\n#include <algorithm>\n#include "vx_bitcast.h"\n#include "vx_fold.h"\n#include "common.hpp"\nnamespace souffle {\n'
               + '\n'.join(syn_fns) + '\n}\n')
     ctx.rewrites['emitted strings (sample)'] = {k: emitted[k] for k in list(emitted)[:6]}
     ctx.dropped.append('synthesiser: string operators of the same switches (emitted text mentions symTable)')
 
+    # ---------------------------------------------------------------- operator tables of BinaryConstraintOps.h
+    tfns = []
+    for fn in TABLE_FNS:
+        t, _ = bco.block(r'inline\s+(?:bool|BinaryConstraintOp)\s+%s\s*\(\s*const\s+BinaryConstraintOp\s+\w+\s*\)\s*\{' % fn, semi=False)
+        tfns.append(strip_comments(t))
+    names = re.findall(r'\b([A-Z_]+)\b\s*(?:,|\})', re.sub(r'//[^\n]*', '', cenum[cenum.index('{'):]))
+    ctx.constraint_enum = names
+    ctx.write('tables.hpp', '#include <cassert>\n#include "common.hpp"\nextern "C" int vx_unreachable(void);\n#define UNREACHABLE_BAD_CASE_ANALYSIS return (BinaryConstraintOp)vx_unreachable();\nnamespace souffle {\n'
+              + '\n'.join(tfns) + '\n}\n')
     # ---------------------------------------------------------------- generated wrappers + contracts
     gen_wrappers(ctx)
     gen_contracts(ctx)
     ctx.rewrites.update(log)
+
+
+def gen_native_replay(ctx, emitted):
+    """native replay program: the preprocessed interpreter switch and the emitted synthesiser expressions compiled by g++ with the
+    REAL RamTypes.h / EvaluatorUtil.h / BinaryConstraintOps.h, compared with the specification on one operand tuple"""
+    L = ['#include "FunctorOps.h"', '#include "souffle/BinaryConstraintOps.h"', '#include "souffle/utility/EvaluatorUtil.h"',
+         '#define VX_FUNCTORS_COMMON  /* the real enums and lxor instead of the extracted copies */', '#include "interp_native.cpp"', '#include <cmath>', '#include <cstdio>', '#include <cstdlib>', '#include <cstring>', '#include <string>',
+         'using namespace souffle;',
+         '#define U(x) ((unsigned)(x))', '#define L(x) ((long)(x))', '#define UL(x) ((unsigned long)(unsigned)(x))',
+         'static float F(int x) { float f; std::memcpy(&f, &x, 4); return f; }', 'static int FB(float f) { int i; std::memcpy(&i, &f, 4); return i; }',
+         '#define POWD(a, b) std::pow((double)(a), (double)(b))', '#define POWF(a, b) std::pow((float)(a), (float)(b))']
+    for op, (ar, dom, spec, be) in T.FUNCTORS.items():
+        args = ', '.join('int a%d' % i for i in range(2))
+        L.append('static int spec_%s(%s) { (void)a1; return %s; }' % (op, args, spec))
+        L.append('static bool dom_%s(%s) { (void)a1; return %s; }' % (op, args, dom))
+        L.append('static RamDomain nsynth_%s(const RamDomain* vx_a) { return ramBitCast(%s); }' % (op, emitted['F %s/%d' % (op, ar)]))
+    for op, spec in T.CONSTRAINTS.items():
+        L.append('static int specc_%s(int a0, int a1) { return (%s) ? 1 : 0; }' % (op, spec))
+        L.append('static RamDomain nsynthc_%s(const RamDomain* vx_a) { return (%s) ? 1 : 0; }' % (op, emitted['C %s/2' % op]))
+    L.append('int main(int argc, char** argv) {\n    if (argc < 5) return 2;\n    std::string kind = argv[1], op = argv[2]; RamDomain a[2] = {(RamDomain)std::atoll(argv[3]), (RamDomain)std::atoll(argv[4])};')
+    for op, (ar, dom, spec, be) in T.FUNCTORS.items():
+        L.append('    if (op == "%s" && (kind == "interp" || kind == "synth")) { if (!dom_%s(a[0], a[1])) { std::printf("outside the defined domain\\n"); return 0; } int want = spec_%s(a[0], a[1]); '
+                 'int got = kind == "interp" ? interp_functor(FunctorOp::%s, a, %d) : nsynth_%s(a); std::printf("%%s %s(%%d,%%d): got %%d (0x%%08x), specification %%d (0x%%08x)\\n", kind.c_str(), a[0], a[1], got, got, want, want); return got == want ? 0 : 1; }'
+                 % (op, op, op, op, ar, op, op))
+    for op in T.CONSTRAINTS:
+        L.append('    if (op == "%s" && (kind == "interpc" || kind == "synthc")) { int want = specc_%s(a[0], a[1]); int got = kind == "interpc" ? interp_constraint(BinaryConstraintOp::%s, a[0], a[1]) : nsynthc_%s(a); '
+                 'std::printf("%%s %s(%%d,%%d): got %%d, specification %%d\\n", kind.c_str(), a[0], a[1], got, want); return got == want ? 0 : 1; }' % (op, op, op, op, op))
+    L.append('''    if (kind == "tables") {
+        auto o = (BinaryConstraintOp)std::atoi(argv[2]);
+        if (isStrictIneqConstraint(o)) {
+            bool s = interp_constraint(o, a[0], a[1]) != 0, w = interp_constraint(convertStrictToWeakIneqConstraint(o), a[0], a[1]) != 0, ne = interp_constraint(convertStrictToNotEqualConstraint(o), a[0], a[1]) != 0;
+            std::printf("operator #%d on bit patterns (%d,%d): strict=%d weak=%d notequal=%d\\n", (int)o, a[0], a[1], s, w, ne);
+            if (s != (w && ne)) return 1;
+        }
+        bool nan = false; { float x = F(a[0]), y = F(a[1]); nan = x != x || y != y; }
+        bool isf = o == BinaryConstraintOp::FEQ || o == BinaryConstraintOp::FNE || o == BinaryConstraintOp::FLT || o == BinaryConstraintOp::FLE || o == BinaryConstraintOp::FGT || o == BinaryConstraintOp::FGE;
+        if (!(isf && nan)) { bool e = interp_constraint(o, a[0], a[1]) != 0, n = interp_constraint(negatedConstraintOp(o), a[0], a[1]) != 0; if (e == n) { std::printf("negation table wrong for operator #%d\\n", (int)o); return 1; } }
+        return 0;
+    }''')
+    L.append('    return 2;\n}')
+    ctx.write('replay_native.cpp', '\n'.join(L) + '\n')
+
+
+def replay(ctx, h, r, ins, tr):
+    last = (tr or {}).get('last', {})
+    parts = h.name.split('.')
+    kind = parts[1]
+    exe = os.path.join(ctx.work, 'replay_functors')
+    p = subprocess.run(['g++', '-std=c++17', '-w', '-I', os.path.join(ctx.repo, 'src/include'), '-I', os.path.join(ctx.repo, 'src'), os.path.join(ctx.work, 'replay_native.cpp'), '-o', exe],
+                       stdout=subprocess.PIPE, stderr=subprocess.STDOUT)
+    if p.returncode != 0:
+        return None, 'native replay build failed: ' + p.stdout.decode()[-400:]
+    def val(*names):
+        for n in names:
+            if n in last:
+                try:
+                    return int(re.sub(r'[uUlL]+$', '', str(last[n])))
+                except ValueError:
+                    pass
+        return 0
+    if kind == 'tables':
+        loc = {}
+        for lhs, data, fn, kind_ in (tr or {}).get('order', []):
+            if fn == 'lemma_tables' and kind_ == 'variable' and lhs in ('op', 'a', 'b'):
+                loc[lhs] = data          # the harness' own locals (callees reuse the names)
+        def lv(n):
+            try:
+                return int(re.sub(r'[uUlL]+$', '', str(loc.get(n, 0))))
+            except ValueError:
+                return 0
+        args = ['tables', str(lv('op')), str(lv('a')), str(lv('b'))]
+    elif len(parts) >= 3 and parts[2] in T.FUNCTORS or (len(parts) >= 3 and parts[2] in T.CONSTRAINTS):
+        args = [kind, parts[2], str(val('in_a[0l]', 'in_a[0]', 'in_a[0L]')), str(val('in_a[1l]', 'in_a[1]', 'in_a[1L]'))]
+    else:
+        return None, 'no native replay for n-ary MIN/MAX harnesses'
+    q = subprocess.run([exe] + args, stdout=subprocess.PIPE, stderr=subprocess.STDOUT)
+    return q.returncode == 1, 'real code (preprocessed interpreter switch / emitted expression, g++ with the real headers): ' + q.stdout.decode().strip()[-300:]
 
 
 def gen_wrappers(ctx):
@@ -376,6 +465,10 @@ def gen_wrappers(ctx):
     for op in T.CONSTRAINTS:
         w.append('int h_interpc_%s(int l, int r) { return interp_constraint(BinaryConstraintOp::%s, l, r); }' % (op, op))
         w.append('int h_synthc_%s(const int* a, unsigned long n) { return synthc_%s(a); }' % (op, op))
+    w.insert(2, '#include "tables.hpp"')
+    for fn in TABLE_FNS:
+        w.append('int h_tbl_%s(int op) { return (int)%s((BinaryConstraintOp)op); }' % (fn, fn))
+    w.append('int h_E(int op, int l, int r) { return interp_constraint((BinaryConstraintOp)op, l, r); }')
     w.append('}')
     ctx.write('wrappers.cpp', '\n'.join(w) + '\n')
 
@@ -424,6 +517,42 @@ def gen_contracts(ctx):
         c.append('void harness_interpc_%s(void) { in_a[0] = nondet_int(); in_a[1] = nondet_int(); h_interpc_%s(in_a[0], in_a[1]); CANARY; }' % (op, op))
         c.append('int h_synthc_%s(const int *a, unsigned long n)\n__CPROVER_requires(a == in_a)\n__CPROVER_ensures(__CPROVER_return_value == specc_%s(in_a[0], in_a[1]))\n__CPROVER_assigns();' % (op, op))
         c.append('void harness_synthc_%s(void) { in_a[0] = nondet_int(); in_a[1] = nondet_int(); h_synthc_%s(in_a, 2); CANARY; }' % (op, op))
+    # ---- table lemmas over the interpreter's own evaluator E(op, a, b) = interp_constraint(op, a, b)
+    en = ctx.constraint_enum
+    c.append('enum { %s };' % ', '.join('OP_%s = %d' % (n, i) for i, n in enumerate(en)))
+    for fn in TABLE_FNS:
+        c.append('int h_tbl_%s(int op);' % fn)
+    c.append('int h_E(int op, int l, int r);')
+    numeric = [n for n in en if n in T.CONSTRAINTS]
+    c.append('static _Bool is_numeric_op(int op) { return %s; }' % ' || '.join('op == OP_%s' % n for n in numeric))
+    c.append('static _Bool is_float_op(int op) { return %s; }' % ' || '.join('op == OP_%s' % n for n in numeric if n.startswith('F')))
+    c.append('''
+void lemma_tables(void) {
+    int op = nondet_int(), a = nondet_int(), b = nondet_int();
+    __CPROVER_assume(is_numeric_op(op));
+    _Bool nan = is_float_op(op) && (F(a) != F(a) || F(b) != F(b));
+    /* the split MakeIndex relies on: a strict inequality == its weak form AND its not-equal form, for ALL values (NaN, +-0 included) */
+    if (h_tbl_isStrictIneqConstraint(op)) {
+        int w = h_tbl_convertStrictToWeakIneqConstraint(op), ne = h_tbl_convertStrictToNotEqualConstraint(op);
+        __CPROVER_assert(is_numeric_op(w) && is_numeric_op(ne) && h_tbl_isWeakIneqConstraint(w), "table lemma: strict->weak / strict->not-equal stay within the numeric operators");
+        __CPROVER_assert((h_E(op, a, b) != 0) == ((h_E(w, a, b) != 0) && (h_E(ne, a, b) != 0)), "table lemma: strict(a,b) == weak(a,b) && notequal(a,b) for all values");
+        __CPROVER_assert(h_E(op, a, a) == 0, "table lemma: strict inequalities are irreflexive");
+    }
+    if (h_tbl_isWeakIneqConstraint(op) && !nan) __CPROVER_assert(h_E(op, a, a) != 0, "table lemma: weak inequalities are reflexive (non-NaN)");
+    __CPROVER_assert(!(h_tbl_isStrictIneqConstraint(op) && h_tbl_isWeakIneqConstraint(op)), "table lemma: strict and weak are disjoint");
+    /* negation table: exact complement for integer operators and for float operators on non-NaN operands */
+    { int ng = h_tbl_negatedConstraintOp(op);
+      __CPROVER_assert(is_numeric_op(ng), "table lemma: negation stays within the numeric operators");
+      if (!nan) __CPROVER_assert((h_E(ng, a, b) != 0) == (h_E(op, a, b) == 0), "table lemma: negated(op)(a,b) == !op(a,b)"); }
+    /* direction predicates agree with the evaluator */
+    if (h_tbl_isLessThan(op) || h_tbl_isGreaterThan(op)) __CPROVER_assert(h_tbl_isStrictIneqConstraint(op) && !(h_E(op, a, b) != 0 && h_E(op, b, a) != 0), "table lemma: less/greater-than operators are strict and asymmetric");
+    if (h_tbl_isLessEqual(op) || h_tbl_isGreaterEqual(op)) __CPROVER_assert(h_tbl_isWeakIneqConstraint(op), "table lemma: less/greater-equal operators are weak");
+    if (h_tbl_isLessThan(op) && h_E(op, a, b) != 0) __CPROVER_assert(h_E(h_tbl_convertStrictToWeakIneqConstraint(op), a, b) != 0 && h_tbl_isLessEqual(h_tbl_convertStrictToWeakIneqConstraint(op)), "table lemma: LT implies its LE");
+    if (h_tbl_isGreaterThan(op) && h_E(op, a, b) != 0) __CPROVER_assert(h_tbl_isGreaterEqual(h_tbl_convertStrictToWeakIneqConstraint(op)) && h_E(h_tbl_convertStrictToWeakIneqConstraint(op), a, b) != 0, "table lemma: GT implies its GE");
+    if (h_tbl_isEqConstraint(op)) __CPROVER_assert(nan || h_E(op, a, a) != 0, "table lemma: equality operators are reflexive (non-NaN)");
+    if (h_tbl_isSignedInequalityConstraint(op)) __CPROVER_assert((h_E(op, a, b) != 0) == ((op == OP_LT) ? (a < b) : (op == OP_LE) ? (a <= b) : (op == OP_GT) ? (a > b) : (a >= b)), "table lemma: signed inequality operators compare as signed integers");
+    CANARY;
+}''')
     CT = {'I': 'int', 'U': 'unsigned', 'F': 'float'}
     VAL = {'I': '(x)', 'U': 'U(x)', 'F': 'F(x)'}
     c.append('int *g_arr; unsigned long g_n, in_k, g_w;   /* operand array, ghost index (universal), ghost witness (existential) */')
@@ -473,6 +602,12 @@ def gen_contracts(ctx):
     ctx.write('contracts_gen.c', '\n'.join(c) + '\n')
 
 
+CONV_FLAGS = ['--bounds-check', '--pointer-check', '--signed-overflow-check', '--div-by-zero-check', '--undefined-shift-check', '--conversion-check']
+CONV_EXCL = [(r'arithmetic overflow on (signed|unsigned) to (signed|unsigned) type conversion',
+              'integer-to-integer conversions are modular (defined / implementation-defined two\'s complement), not among the undefined cases; '
+              'float-to-integer conversion checks are kept')]
+
+
 def harnesses(ctx):
     cpp = os.path.join(ctx.work, 'wrappers.cpp')
     c = [os.path.join(ctx.work, 'contracts_gen.c')]
@@ -480,7 +615,7 @@ def harnesses(ctx):
     for op, (ar, dom, spec, be) in T.FUNCTORS.items():
         for eng in ('interp', 'synth'):
             hs.append(Harness('functors.%s.%s' % (eng, op), 'harness_%s_%s' % (eng, op), cpp=cpp, c=c, enforce='h_%s_%s' % (eng, op),
-                              must_have=['postcondition'], backend=be, unwind=None,
+                              must_have=['postcondition'], backend=be, unwind=None, flags=list(CONV_FLAGS), exclude=list(CONV_EXCL),
                               clause='%s %s == specification on its defined domain' % (eng, op),
                               funcs=['Engine::execute CASE(IntrinsicOperator) case %s' % op if eng == 'interp' else 'Synthesiser emitter visit_(IntrinsicOperator) case %s' % op]))
     for op in T.MINMAX:
@@ -497,6 +632,9 @@ def harnesses(ctx):
                           unwind=None, clause='interpreter constraint %s == specification' % op, funcs=['Engine::execute CASE(Constraint) case %s' % op]))
         hs.append(Harness('functors.synthc.%s' % op, 'harness_synthc_%s' % op, cpp=cpp, c=c, enforce='h_synthc_%s' % op, must_have=['postcondition'],
                           unwind=None, clause='compiled constraint %s == specification' % op, funcs=['Synthesiser emitter visit_(Constraint) case %s' % op]))
+    hs.append(Harness('functors.tables', 'lemma_tables', cpp=cpp, c=c, unwind=None, must_have=['table lemma'],
+                      clause='BinaryConstraintOps.h tables (strict->weak/not-equal split used by MakeIndex, negation, direction predicates) agree with the interpreter evaluator for all operands',
+                      funcs=['souffle::' + f for f in TABLE_FNS]))
     return hs
 
 
@@ -520,5 +658,7 @@ MUTANTS = [
     dict(name='interp LXOR as bitwise xor', file=ENGINE, find=r'BINARY_OP_LOGICAL\(LXOR, \+ souffle::evaluator::lxor_infix\(\) \+\)', repl='BINARY_OP_LOGICAL(LXOR, ^)', expect=r'functors\.interp\.U?LXOR'),
     dict(name='interp F2U via signed', file=ENGINE, find=r'UNARY_OP\(F2U, RamFloat   , static_cast<RamUnsigned>\)', repl='UNARY_OP(F2U, RamFloat   , static_cast<RamSigned>)', expect=r'functors\.interp\.F2U'),
     dict(name='lxor: both non-zero gives true', file=EVU, find=r'return \(x \|\| y\) && \(!x != !y\);', repl='return (x || y);', expect=r'functors\.(interp|synth)\.U?LXOR'),
+    dict(name='strict->not-equal maps FLT to bitwise NE', file=BCO, find=r'case BinaryConstraintOp::FLT: return BinaryConstraintOp::FNE;', repl='case BinaryConstraintOp::FLT: return BinaryConstraintOp::NE;', expect=r'functors\.tables'),
+    dict(name='negation table: LE -> GE', file=BCO, find=r'case BinaryConstraintOp::LE: return BinaryConstraintOp::GT;', repl='case BinaryConstraintOp::LE: return BinaryConstraintOp::GE;', expect=r'functors\.tables'),
     dict(name='synth FEQ emitted as integer compare', file=SYNTH, find=r'case BinaryConstraintOp::F##opCode: COMPARE_NUMERIC\(RamFloat   , op\);\n#define COMPARE\(', repl='case BinaryConstraintOp::F##opCode: COMPARE_NUMERIC(RamDomain   , op);\n#define COMPARE(', expect=r'functors\.synthc\.F(EQ|NE)'),
 ]
